@@ -8,10 +8,12 @@ typedef union ResourceManager__SlotData SlotData;
 typedef struct Slot_ResourceManager__SlotData Slot;
 typedef struct MemoryPoolList_ResourceManager__SlotData PoolList;
 
-#define MAXPOOLS (CFG_NULL_SLOT / CFG_CAP + 1) /* as the code defines it */
+/* the number of pools of CAP slots needed to host NULL_SLOT slots (ids 0..NULL_SLOT-1): derived from the property's limit
+ * 'at most 2^(8*slot-id-size)-1 slots', independently of the code's own constant (compared in list_id_space) */
+#define MAXPOOLS ((CFG_NULL_SLOT + CFG_CAP - 1) / CFG_CAP)
 
 /* capacity a pool at table index i may have: the pool that makes the id space reach NULL_SLOT is one slot smaller */
-static uint64_t pool_cap_limit(uint64_t index) { return (index + 1 == MAXPOOLS) ? CFG_CAP - 1 : CFG_CAP; }
+static uint64_t pool_cap_limit(uint64_t index) { uint64_t left = CFG_NULL_SLOT - index * CFG_CAP; return index >= MAXPOOLS ? 0 : (left < CFG_CAP ? left : CFG_CAP); }
 
 static _Bool wf_pool_at(const Pool *p, uint64_t index) {
   return p->usage_ <= p->capacity_ && ((p->slots_ == 0) == (p->capacity_ == 0)) && p->capacity_ <= pool_cap_limit(index);
@@ -19,7 +21,7 @@ static _Bool wf_pool_at(const Pool *p, uint64_t index) {
 static _Bool wf_list_fields(const PoolList *l) {
   return l->count_ <= l->capacity_ && l->count_ <= MAXPOOLS &&
          ((l->pools_ == l->preallocatedPools_) ? l->capacity_ == CFG_INITIAL : l->capacity_ > CFG_INITIAL) &&
-         (l->capacity_ <= MAXPOOLS || l->capacity_ == CFG_INITIAL);
+         (l->capacity_ <= MAXPOOLS || l->capacity_ == CFG_INITIAL); /* heap tables: any size in (INITIAL, maxPools] (shrinkToFit) */
 }
 
 /* ---- state builder: a list with an arbitrary table (inline or heap) in which ONE focus entry `fi` is materialised with a
@@ -42,7 +44,10 @@ static PoolList *mk_list(unsigned *fi_out, _Bool need_focus) {
 #define SCEN_HEAP 0
 #endif
   const _Bool heap = SCEN_HEAP;
-  const unsigned cap = SCEN_HEAP ? heap_cap_k : (unsigned)CFG_INITIAL;
+  /* heap tables may have ANY capacity in (INITIAL, K]: doubling, clamping and shrinkToFit() all produce such values;
+   * the block itself always has K entries so that its size is a constant for the solver */
+  unsigned cap = SCEN_HEAP ? in_u32() : (unsigned)CFG_INITIAL;
+  if (SCEN_HEAP) __CPROVER_assume(cap > CFG_INITIAL && cap <= heap_cap_k);
   if (!heap) {
     l->pools_ = l->preallocatedPools_;
     for (unsigned i = 0; i < CFG_INITIAL; i++) { l->preallocatedPools_[i].slots_ = 0; l->preallocatedPools_[i].capacity_ = 0; l->preallocatedPools_[i].usage_ = 0; }
